@@ -367,7 +367,7 @@ def describe(outs, rig, progs):
         row = []
         for k, (tag, v) in zip(p, o):
             if tag == "ok":
-                row.append("ok" if (v.shape == rig.baseline(k).shape and np.array_equal(v.todense(), rig.baseline(k))) else "wrong")
+                row.append("ok" if (v.shape == rig.baseline(k).shape and np.array_equal(v.todense(), rig.baseline(k))) else "returned a value different from the sequential result")
             else:
                 row.append(f"{type(v).__name__}: {v}")
         res.append(row)
@@ -847,6 +847,23 @@ def run(ctx):
         "scheduler and on the Lean model, compared per quantum; A:memo:* likewise for _memoize_dtype.wrapped; C:stress-traced = one PCT or "
         "random-walk schedule over every executed line of sparse/ for 2-16 threads x 1-3 whole operations on shared operands vs the sequential "
         "baseline; non-trivial = the schedule actually switches between threads; distinct by content hash (configuration + schedule)")
+
+
+def replay(ctx, path):
+    """explored schedules, PCT and random-walk schedules are functions of (seed, tier): re-run the check under the recorded ones
+    (a cache / memo schedule failure also carries its configuration and schedule in full: it is re-run first, alone)"""
+    rep = json.loads(open(path).read())
+    f = rep.get("failure") or (rep.get("correspondence_failures") or [None])[0]
+    print(json.dumps(f or rep, indent=1, default=str)[:3000], file=sys.stderr)
+    if f and f.get("family") in ("cache-schedule", "model:cache-schedule") and isinstance(f.get("case"), dict) and f["case"].get("schedule"):
+        c = f["case"]
+        rig = CacheRig(cache_sites())
+        coop, outs, keys, vals_ok = rig.run(c["dq0"], c["progs"], Explicit(c["schedule"]))
+        print("replayed schedule:", describe(outs, rig, c["progs"]), "deque", keys, "values_ok", vals_ok, file=sys.stderr)
+    ctx.seed, ctx.tier = int(rep.get("seed", ctx.seed)), rep.get("tier", ctx.tier)
+    ctx.quick = ctx.tier == "quick"
+    run(ctx)
+    return core.finish(ctx)
 
 
 if __name__ == "__main__":
